@@ -219,6 +219,7 @@ def _generate_graphs(
             seq_out = vertices[output_name].seq
             ts_end = jnp.where(seq_out == -1, jnp.inf, vertices[output_name].ts_end)
             ts_recv = ts_end + communication_delays[(output_name, input_name)].replace(rng=_rng).sample(shape=ts_end.shape)[1]
+            ts_recv = jax.lax.cummax(ts_recv, axis=0)  # Enforce FIFO property (as the asynchronous runtime does)
             ts_start = vertices[input_name].ts_start
             scan_body_seq = functools.partial(_scan_body_seq, c.skip, ts_start)
             last_seq, seqs_clipped = jax.lax.scan(scan_body_seq, 0, ts_recv)
